@@ -297,6 +297,9 @@ func hres(parts ...interface{}) string {
 }
 
 func guarded(f func() string) (out string) {
+	if curCtx != nil {
+		curCtx.opSteps = 0
+	}
 	defer func() {
 		r := recover()
 		gp, gn := "", false
@@ -669,6 +672,13 @@ func runC18(c *Ctx) *Violation {
 	// reference realization: the same option values reached from a pristine package by
 	// one explicit call per option must give the same behaviour as the history did
 	reference := func(after string) *Violation {
+		if facts.GoStmts > 0 {
+			// goroutines of the package are bound to the package state that started them (a worker
+			// waits on the channel a sync.Once made): swapping the state under them and back would
+			// leave the restored state without its goroutines.  The table rule remains.
+			c.C["probe.reference_realizations_skipped_tree_starts_goroutines"]++
+			return nil
+		}
 		c.Eval()
 		snap := snapshotGlobals()
 		resetPackageState()
